@@ -80,8 +80,8 @@ class C06(runner.Check):
 		ops = []
 		for _ in range(r.randint(4, 14)):
 			kind = r.wchoice(["dls", "marg", "np_seed", "np_draw", "torch_seed",
-				"numba_threads", "train", "predict", "ism", "fail"],
-				[14, 2, 1, 1, 1, 1, 1, 1, 1, 3 if leg == "faulty" else 0])
+				"numba_threads", "train", "predict", "ism", "custom_ops", "fail"],
+				[14, 2, 1, 1, 1, 1, 1, 1, 1, 1, 3 if leg == "faulty" else 0])
 			op = {"kind": kind}
 			if kind in ("dls", "marg", "fail"):
 				m = r.wchoice(["subset", "perm", "dup", "all", "single"], [3, 3, 2, 2, 2])
@@ -102,7 +102,8 @@ class C06(runner.Check):
 				op.update(idx=idx, batch_size=r.choice(cands),
 					mode=r.wchoice(["processed", "hypothetical", "raw"], [3, 2, 2]),
 					refs=r.wchoice(["gen", "tensor"], [3, 1]),
-					return_references=r.chance(0.4), thread=r.chance(0.12))
+					return_references=r.chance(0.4), thread=r.chance(0.12),
+					seed_type=r.wchoice(["int", "numpy.int64", "numpy.int32"], [6, 1, 1]))
 				if op["refs"] == "tensor":
 					op["return_references"] = False
 				if kind == "marg":
@@ -123,7 +124,7 @@ class C06(runner.Check):
 
 	# -- execution -----------------------------------------------------------
 	def _dls(self, model, X, args, op_or_mode, world, refs=None, batch_size=None,
-		return_references=False, refgen=None):
+		return_references=False, refgen=None, seed_type="int", extra_ops=None):
 		from tangermeme.deep_lift_shap import deep_lift_shap
 		mode = op_or_mode
 		kw = dict(target=world["target"], batch_size=batch_size,
@@ -135,6 +136,11 @@ class C06(runner.Check):
 			kw["references"] = refs
 		elif refgen is not None:
 			kw["references"] = refgen
+		if seed_type != "int":
+			kw["random_state"] = getattr(numpy, seed_type.split(".")[1])(
+				world["random_state"])
+		if extra_ops is not None:
+			kw["additional_nonlinear_ops"] = extra_ops
 		with warnings.catch_warnings():
 			warnings.simplefilter("ignore")
 			return deep_lift_shap(model, X, args=args, **kw)
@@ -208,6 +214,20 @@ class C06(runner.Check):
 						tuple(a[:1] for a in args), start=0, end=3, device="cpu",
 						target=world["target"])
 					perturbed = True
+				elif kind == "custom_ops":
+					# a caller overriding the rule of every activation type for ONE call
+					# (plain gradients); later calls must be unaffected by it
+					passthrough = lambda module, grad_input, grad_output: grad_input
+					types_ = set(type(m) for m in shared.modules()
+						if type(m).__module__.startswith("torch.nn.modules.activation")
+						or isinstance(m, torch.nn.MaxPool1d))
+					try:
+						self._dls(shared, X[:1], None if args is None else tuple(a[:1]
+							for a in args), "processed", world, batch_size=ns,
+							extra_ops={t: passthrough for t in types_})
+					except Exception:
+						pass
+					perturbed = True
 				elif kind == "fail":
 					snap = mw.Snapshot(shared, pX, pargs)
 					plan = mw.set_plan(mw.FaultPlan(op["fault"]))
@@ -269,7 +289,8 @@ class C06(runner.Check):
 							else:
 								box["res"] = self._dls(shared, Xs, a_s, op["mode"], world,
 									refs=refs, batch_size=bs,
-									return_references=op["return_references"])
+									return_references=op["return_references"],
+									seed_type=op.get("seed_type", "int"))
 						except BaseException as e:
 							box["exc"] = e
 					if op.get("thread"):
@@ -279,9 +300,9 @@ class C06(runner.Check):
 					else:
 						call()
 					key = {"kind": kind, "mode": op["mode"], "refs": op["refs"]}
-					desc = "op %d %s(idx=%r, batch_size=%d, n_shuffles=%d, mode=%s, refs=%s%s)" % (
-						oi, kind, idx, bs, ns, op["mode"], op["refs"],
-						", other thread" if op.get("thread") else "")
+					desc = "op %d %s(idx=%r, batch_size=%d, n_shuffles=%d, mode=%s, refs=%s, " \
+						"random_state as %s%s)" % (oi, kind, idx, bs, ns, op["mode"], op["refs"],
+						op.get("seed_type", "int"), ", other thread" if op.get("thread") else "")
 					if "exc" in box:
 						e = box["exc"]
 						if isinstance(e, (SystemExit, GeneratorExit)):
